@@ -138,8 +138,9 @@ def judge(case, r):
 
 def one(case):
     return shellrun.run_shell({'files': {'d.tex': case['doc']}, 'main': ['d.tex'],
-                               'args': ['--output', 'html', '--plain-input', '--context', str(case['context'])],
-                               'spec': {'spans': case['matches'], 'message': case['msg'], 'suggestions': case['sugg']}})
+                               'args': ['--output', 'html', '--plain-input', '--context', str(case['context'])] + (['--link'] if case.get('link') else []),
+                               'spec': {'spans': case['matches'], 'message': case['msg'], 'suggestions': case['sugg'],
+                                        'mutations': ([{'op': 'set', 'path': ['matches', 0, 'rule', 'urls', 0, 'value'], 'value': case['url']}] if case.get('url') else [])}})
 
 def run(ctx):
     rng = ctx.rng
@@ -147,7 +148,8 @@ def run(ctx):
     for _ in range(ctx.scale(120, 3000)):
         doc = gen_doc(rng)
         cases.append({'doc': doc, 'matches': gen_matches(rng, doc), 'context': rng.choice([-1, 0, 1, 2, 2, 5]),
-                      'msg': 'M ' + rng.choice(HOSTILE), 'sugg': [rng.choice(HOSTILE) for _ in range(rng.randint(0, 3))]})
+                      'msg': 'M ' + rng.choice(HOSTILE), 'sugg': [rng.choice(HOSTILE) for _ in range(rng.randint(0, 3))],
+                      'link': rng.random() < 0.5, 'url': rng.choice([None, 'http://x/' + rng.choice(HOSTILE), 'u"><script>x</script>', 'http://x/<br>\ny'])})
     ctx.stats['_rule'] = ('plain-input files with HTML-special characters, empty lines, tabs, long lines x sets of in-range matches incl. overlapping, '
                           'adjacent, nested, multi-line and zero-length ones x context -1/0/1/2/5, hostile text in messages and suggestions '
                           '(subprocess --output html); report parsed with html.parser; non-trivial = at least 2 matches')
@@ -157,7 +159,7 @@ def run(ctx):
         ctx.count('matches', len(c['matches'])); ctx.count('context_%d' % c['context'])
         fails = judge(c, r)
         if fails:
-            ctx.violation(fails[0], doc=c['doc'], matches=c['matches'], context=c['context'], msg=c['msg'], sugg=c['sugg'], all=fails[:3])
+            ctx.violation(fails[0], doc=c['doc'], matches=c['matches'], context=c['context'], msg=c['msg'], sugg=c['sugg'], link=c.get('link'), url=c.get('url'), all=fails[:3])
         if len(ctx.samples) < 3:
             ctx.sample({'doc': c['doc'][:120], 'matches': c['matches'], 'context': c['context']})
     protect_corr(ctx)
@@ -186,6 +188,7 @@ def judge_witness(w):
 
 def replay(data):
     v = data['violation']
-    f = judge_witness({'doc': v['doc'], 'matches': [tuple(x) for x in v['matches']], 'context': v['context'], 'msg': v['msg'], 'sugg': v['sugg']})
+    f = judge_witness({'doc': v['doc'], 'matches': [tuple(x) for x in v['matches']], 'context': v['context'], 'msg': v['msg'], 'sugg': v['sugg'],
+                       'link': v.get('link'), 'url': v.get('url')})
     print('\n'.join(f) if f else 'ok')
     return not f
